@@ -183,6 +183,9 @@ func (p *Program) verifyKey(k string) *FuncResult {
 		}
 		return p.verifyLemma(lm)
 	}
+	if strings.HasPrefix(k, "globalwrites:") {
+		return p.globalWriteSweep(k, strings.Split(strings.TrimPrefix(k, "globalwrites:"), ","))
+	}
 	sweep := false
 	if strings.HasPrefix(k, "sweep:") {
 		sweep = true
@@ -214,3 +217,36 @@ func (p *Program) verifyKey(k string) *FuncResult {
 
 func cmdCheck(args []string)    { checkMain(args) }
 func cmdSelftest(args []string) { selftestMain(args) }
+
+// globalWriteSweep: every package-level variable of the module that is written (or whose address escapes)
+// outside package initialisation must be on the allow list. One obligation per variable found.
+func (p *Program) globalWriteSweep(key string, allow []string) *FuncResult {
+	vc := newVC(p, ModeInt)
+	res := &FuncResult{Key: key, VC: vc}
+	ok := map[string]bool{}
+	for _, a := range allow {
+		ok[strings.TrimSpace(a)] = true
+	}
+	var names []string
+	for g := range p.mutableGlobals {
+		if g.Pkg == nil || !strings.HasPrefix(g.Pkg.Pkg.Path(), modPrefix) {
+			continue
+		}
+		rel := relPkgPath(g.Pkg.Pkg)
+		if strings.HasPrefix(rel, "parse/gen") || strings.HasPrefix(rel, "cmd/") || strings.HasPrefix(rel, "interpreter/mg") || strings.HasPrefix(rel, "examples") {
+			continue
+		}
+		names = append(names, rel+"."+g.Name())
+	}
+	sort.Strings(names)
+	for _, n := range names {
+		goal := "false"
+		if ok[n] {
+			goal = "true"
+		}
+		vc.oblige(&Obligation{Name: key[:12] + "#" + n, Kind: "static", PC: "true", Goal: goal, Text: "package-level variable " + n + " is written outside init: must be on the allow list", Fn: key})
+	}
+	vc.oblige(&Obligation{Name: key[:12] + "#count", Kind: "static", PC: "true", Goal: "true", Text: fmt.Sprintf("%d package-level variables are written outside init", len(names)), Fn: key})
+	res.Obls = vc.obls
+	return res
+}
